@@ -64,7 +64,7 @@ class C05(Prop):
                 out.append(self.mk(combo, shape, 'attr' if ci % 2 else 'derive', G.TRAITS, ci))
         # trait subsets: attributes that affect no derived trait must not matter
         sets = [list(c) for n in range(1, 5) for c in itertools.combinations(G.TRAITS, n)]
-        for k in range(1500 if tier == 'quick' else 20000):
+        for k in range(1500 if tier == 'quick' else 100000):
             combo = combos[rng.randrange(len(combos))]
             traits = sets[rng.randrange(len(sets))]
             out.append(self.mk(G.relevant_combo(traits, combo), rng.choice(['named', 'tuple', 'variant', 'after-same-type', 'second-variant']),
@@ -166,14 +166,14 @@ class C05(Prop):
         # a rustc-compiled sample: accepted combinations compile, rejected ones show derive_ex's message
         sample = [r for r in results if not r.meta.get('misplaced')]
         rng.shuffle(sample)
-        sample = sample[:60 if tier == 'quick' else 400]
+        sample = sample[:60 if tier == 'quick' else 3000]
         mods = []
         for r in sample:
             m = r.meta
             head = ('#[::derive_ex::derive_ex(%s)]\n' % r.attr) if r.mode == 'A' else '#[derive(::derive_ex::Ex)]\n'
             variants = [(True, [('u8', m['combo'])])]
             # only the item matters here; supertrait stand-ins as in C01
-            name = 'E' if 'enum' in r.item.split(' ')[:12] else 'X'
+            name = 'E' if re.search(r'\benum E\b', r.item) else 'X'
             src = [head + r.item]
             tr = m['traits']
             if ('Eq' in tr or 'PartialOrd' in tr or 'Ord' in tr) and 'PartialEq' not in tr:
